@@ -1,4 +1,407 @@
+/-
+C11 — files on disk equal the last generated set, whatever I/O faults occurred.
+
+Property theorems for the file manager model (`NGF.Model.FileMgr`): the functions below are the ones
+the driver `ngfdriver_C11` runs and the correspondence compares with the real
+`file.ManagerImpl.ReplaceFiles` / `file.ClearFolders`.  Every theorem quantifies over ALL fault
+schedules `sch : Nat → Option Fault` (any number of failing operations of any kind at any operation
+index, including a crash of the process at any operation, with any partial-write length), all file
+sets (no `Nodup` assumption unless stated) and all histories.
+-/
 import NGF.Model.FileMgr
+import NGF.Proofs.FileMgr
+import NGF.Generated.FileFacts
+
 namespace NGF.FileMgr
-theorem secret_mode_not_world_readable : modeOf .secret % 8 = 0 := by decide
+open NGF.Generated.FileMgr
+
+/-! ## 1. Facts regenerated from /repo on every run, pinned to what the model assumes -/
+
+theorem facts_file_modes : regularFileMode = regularMode ∧ secretFileMode = secretMode := by decide
+
+/-- the secret mode has no permission bit for "others", the regular one is world-readable (NGINX workers) -/
+theorem secret_mode_not_world_readable : modeOf .secret % 8 = 0 ∧ secretFileMode % 8 = 0 := by decide
+
+theorem facts_config_folders : configFolders = managedFolders := by decide
+
+theorem facts_ignore_paths : ignoreFilePaths = ignorePaths := by decide
+
+/-- the bootstrap files live in a managed folder (so `ClearFolders` meets them and must skip them) -/
+theorem ignore_paths_in_managed_folders : ∀ p ∈ ignorePaths, dirOf p ∈ managedFolders := by decide
+
+/-- the path is tracked BEFORE `WriteFile` is called (commit 167f009): the model's `replaceFiles` is
+`replaceFilesV true`. -/
+theorem facts_track_before_write : trackBeforeWrite = true := by decide
+
+theorem facts_replaceFiles_skeleton : replaceFilesSkeleton =
+    ["0|range m.lastWrittenPaths",
+     "1|if err := m.osFileManager.Remove(path); err != nil",
+     "2|if os.IsNotExist(err)",
+     "3|continue",
+     "2|return fmt.Errorf(…)",
+     "0|m.lastWrittenPaths = make([]string, 0, len(files))",
+     "0|range files",
+     "1|m.lastWrittenPaths = append(m.lastWrittenPaths, file.Path)",
+     "1|if err := WriteFile(m.osFileManager, file); err != nil",
+     "2|return fmt.Errorf(…)",
+     "0|return nil"] := by decide
+
+/-- `WriteFile`: Create, then Chmod (per type), then Write -/
+theorem facts_writeFile_calls : writeFileCalls =
+    ["Create(file.Path)", "Chmod(f, regularFileMode)", "Chmod(f, secretFileMode)",
+     "Write(f, file.Content)"] := by decide
+
+theorem facts_writeFile_skeleton : writeFileSkeleton =
+    ["0|ensureType(file.Type)",
+     "0|f, err := fileMgr.Create(file.Path)",
+     "0|if err != nil",
+     "1|return fmt.Errorf(…)",
+     "0|var resultErr error",
+     "0|defer",
+     "1|if err := f.Close(); err != nil",
+     "2|resultErr = errors.Join(resultErr, fmt.Errorf(…)",
+     "0|switch file.Type",
+     "1|case TypeRegular",
+     "2|if err := fileMgr.Chmod(f, regularFileMode); err != nil",
+     "3|resultErr = fmt.Errorf(…)",
+     "3|return resultErr",
+     "1|case TypeSecret",
+     "2|if err := fileMgr.Chmod(f, secretFileMode); err != nil",
+     "3|resultErr = fmt.Errorf(…)",
+     "3|return resultErr",
+     "1|default",
+     "2|panic(fmt.Sprintf(\"unknown file type %d\", file.Type))",
+     "0|if err := fileMgr.Write(f, file.Content); err != nil",
+     "1|resultErr = fmt.Errorf(…)",
+     "1|return resultErr",
+     "0|return resultErr"] := by decide
+
+theorem facts_clearFolders_skeleton : clearFoldersSkeleton =
+    ["0|range paths",
+     "1|entries, err := fileMgr.ReadDir(path)",
+     "1|if err != nil",
+     "2|return removedFiles, fmt.Errorf(…)",
+     "1|range entries",
+     "2|entryPath := filepath.Join(path, entry.Name())",
+     "2|if slices.Contains(ignoreFilePaths, entryPath)",
+     "3|continue",
+     "2|if err := fileMgr.Remove(entryPath); err != nil",
+     "3|return removedFiles, fmt.Errorf(…)",
+     "2|removedFiles = append(removedFiles, entryPath)",
+     "0|return removedFiles, nil"] := by decide
+
+/-- `os.Create` truncates; `Remove`/`Chmod`/`Write`/`ReadDir` are the plain library calls -/
+theorem facts_stdlib_os_calls : stdlibBodies =
+    ["ReadDir: return os.ReadDir(dirname)",
+     "Remove: return os.Remove(name)",
+     "Write: _, err := file.Write(contents); return err",
+     "Create: return os.Create(name)",
+     "Chmod: return file.Chmod(mode)"] := by decide
+
+/-- every path the generator can produce is built from a managed folder, directly inside it -/
+theorem paths_in_managed_folders :
+    (∀ p ∈ generatedFileConsts, dirOf p ∈ managedFolders) ∧
+    (∀ d ∈ generatedPathFolders, d ∈ managedFolders) ∧
+    (∀ s ∈ generatedPathShapes, s ∈ ["folder+/…", "join(folder,…)"]) ∧
+    generatedPathShapes.length = generatedPathExprs.length ∧
+    generatedPathFolders.length = generatedPathExprs.length := by decide
+
+/-- every folder nginx.conf pulls `*.conf` files from is cleared at start-up and tracked afterwards -/
+theorem nginx_conf_includes_only_managed_folders :
+    nginxConfGlobIncludeDirs ≠ [] ∧ ∀ d ∈ nginxConfGlobIncludeDirs, d ∈ managedFolders := by decide
+
+/-- static.StartManager clears exactly `ConfigFolders`, before the file manager exists, and gives up on error -/
+theorem facts_startup_clears_config_folders :
+    clearFoldersArgs = ["file.NewStdLibOSFileManager()", "ngxcfg.ConfigFolders"] ∧
+    ngxcfgImport = "github.com/nginx/nginx-gateway-fabric/internal/mode/static/nginx/config" ∧
+    clearBeforeManagerCreated = true ∧ clearFoldersErrorReturned = true := by decide
+
+/-! ## 2. The invariant `Tracked`, under every fault schedule -/
+
+/-- One `ReplaceFiles` call, whatever fails or crashes in it, keeps every file of the managed folders
+tracked (in `lastWrittenPaths`) or in the bootstrap set `B`. -/
+theorem tracked_preserved (B : List String) (sch : Sched) (s : St) (F : List File)
+    (h : Tracked B s) : Tracked B (replaceFiles sch s F).st :=
+  replaceFiles_tracked B sch s F h
+
+/-- … hence after any history of failed, partially executed or successful replacements. -/
+theorem tracked_after_any_history (B : List String) :
+    ∀ (calls : List (Sched × List File)) (s : St), Tracked B s → Tracked B (runCalls s calls)
+  | [], _, h => h
+  | (sch, F) :: r, s, h => tracked_after_any_history B r _ (tracked_preserved B sch s F h)
+
+example : Tracked [] ⟨[], []⟩ := fun _ h => absurd rfl h
+
+/-! ## 3. A successful replacement leaves exactly its set -/
+
+/-- Successful `ReplaceFiles F` from a tracked state: `lastWrittenPaths` = the paths of `F`; outside the
+bootstrap set the disk is EXACTLY `F` (later entries of `F` win for a repeated path): every path of the
+set holds content and mode of its entry, every other path is absent — no stale or partial file. A
+bootstrap path not in `F` is removed if it was tracked and untouched otherwise. -/
+theorem replace_ok_exact (B : List String) (sch : Sched) (s : St) (F : List File)
+    (ht : Tracked B s) (hok : (replaceFiles sch s F).out = .ok) :
+    (replaceFiles sch s F).st.last = F.map (·.path) ∧
+    (∀ q, q ∉ B → get (replaceFiles sch s F).st.fs q = expectAfter F q none) ∧
+    (∀ q, q ∈ B → get (replaceFiles sch s F).st.fs q =
+        expectAfter F q (if q ∈ s.last then none else get s.fs q)) := by
+  obtain ⟨hl, hg⟩ := replaceFiles_ok sch s F hok
+  refine ⟨hl, fun q hq => ?_, fun q _ => hg q⟩
+  rw [hg q]
+  by_cases hlq : q ∈ s.last
+  · simp [hlq]
+  · have : get s.fs q = none := by
+      apply Classical.byContradiction; intro hne
+      rcases ht q hne with h | h
+      · exact hlq h
+      · exact hq h
+    simp [hlq, this]
+
+/-- Every file of the set is on disk with its exact content and its mode (distinct paths). -/
+theorem replace_ok_files_present (sch : Sched) (s : St) (F : List File)
+    (hnd : (F.map (·.path)).Nodup) (hok : (replaceFiles sch s F).out = .ok) :
+    ∀ f ∈ F, get (replaceFiles sch s F).st.fs f.path = some ⟨f.content, modeOf f.typ⟩ := by
+  intro f hf
+  rw [(replaceFiles_ok sch s F hok).2 f.path]
+  exact expectAfter_nodup F hnd _ f hf
+
+/-- Without the distinctness assumption: a path of the set holds content and mode of ONE of its entries
+(the code lets the last one win; the generator never repeats a path). -/
+theorem replace_ok_some_entry (sch : Sched) (s : St) (F : List File)
+    (hok : (replaceFiles sch s F).out = .ok) :
+    ∀ q ∈ F.map (·.path), ∃ f ∈ F, f.path = q ∧
+      get (replaceFiles sch s F).st.fs q = some ⟨f.content, modeOf f.typ⟩ := by
+  intro q hq
+  rw [(replaceFiles_ok sch s F hok).2 q]
+  rcases expectAfter_cases F q (if q ∈ s.last then none else get s.fs q) with ⟨hn, _⟩ | ⟨f, hf, hp, he⟩
+  · exact absurd hq hn
+  · exact ⟨f, hf, hp, he⟩
+
+/-- Nothing else is left: a path outside the set and outside the bootstrap files is absent — in
+particular the key file of a removed listener. -/
+theorem replace_ok_nothing_else (B : List String) (sch : Sched) (s : St) (F : List File)
+    (ht : Tracked B s) (hok : (replaceFiles sch s F).out = .ok) (q : String)
+    (hq : q ∉ F.map (·.path)) (hb : q ∉ B) : get (replaceFiles sch s F).st.fs q = none := by
+  rw [(replace_ok_exact B sch s F ht hok).2.1 q hb, expectAfter_not_mem F q none hq]
+
+/-- After a successful replacement a path whose entries are all secret is not world-readable. -/
+theorem replace_ok_secret_not_world_readable (sch : Sched) (s : St) (F : List File)
+    (hok : (replaceFiles sch s F).out = .ok) (q : String) (hq : q ∈ F.map (·.path))
+    (hsec : ∀ f ∈ F, f.path = q → f.typ = .secret) :
+    ∃ o, get (replaceFiles sch s F).st.fs q = some o ∧ o.mode % 8 = 0 := by
+  obtain ⟨f, hf, hp, hg⟩ := replace_ok_some_entry sch s F hok q hq
+  refine ⟨_, hg, ?_⟩
+  simp [hsec f hf hp, modeOf, secretMode]
+
+/-- Even when `WriteFile` is interrupted by any fault or by a crash at any operation: the file it works on
+is untouched, or empty, or has the requested mode and a prefix of the requested content. Secret bytes
+are therefore never in a file with a mode other than the secret one. -/
+theorem write_file_never_exposes (sch : Sched) (k : Nat) (fs : FS) (f : File) :
+    get (writeFile sch k fs f).fs f.path = get fs f.path ∨
+    ∃ o, get (writeFile sch k fs f).fs f.path = some o ∧
+      (o.content = [] ∨ (o.mode = modeOf f.typ ∧ o.content <+: f.content)) :=
+  writeFile_safe sch k fs f
+
+/-! ## 4. After any failures, the next successful replacement leaves exactly the latest set -/
+
+/-- From a tracked state, after ANY history of replacements under ANY fault schedules (single, double,
+n-fold failures of remove / create / chmod / write at any operation index, partial writes of any length),
+a replacement that succeeds leaves exactly its own set outside the bootstrap files. -/
+theorem next_success_exact (B : List String) (calls : List (Sched × List File)) (s : St)
+    (ht : Tracked B s) (sch : Sched) (F : List File)
+    (hok : (replaceFiles sch (runCalls s calls) F).out = .ok) :
+    ∀ q, q ∉ B → get (replaceFiles sch (runCalls s calls) F).st.fs q = expectAfter F q none :=
+  (replace_ok_exact B sch _ F (tracked_after_any_history B calls s ht) hok).2.1
+
+/-- … with no bootstrap files at all (`B = []`), the whole disk is exactly the latest set. -/
+theorem next_success_exact_whole_disk (calls : List (Sched × List File)) (s : St)
+    (ht : Tracked [] s) (sch : Sched) (F : List File)
+    (hok : (replaceFiles sch (runCalls s calls) F).out = .ok) :
+    ∀ q, get (replaceFiles sch (runCalls s calls) F).st.fs q = expectAfter F q none :=
+  fun q => next_success_exact [] calls s ht sch F hok q (by simp)
+
+/-! ## 5. Start-up cleanup, crashes and the whole control plane -/
+
+/-- `ClearFolders` never touches a bootstrap file and never creates anything — under every schedule. -/
+theorem clear_keeps_bootstrap (sch : Sched) (fs : FS) (folders : List String) (q : String)
+    (hq : q ∈ ignorePaths) : get (clearFolders sch fs folders).fs q = get fs q := by
+  rcases clearLoop_get sch folders 0 fs q with h | ⟨_, hn⟩
+  · exact h
+  · exact absurd hq hn
+
+/-- A `ClearFolders` run that completes leaves, in the folders it was given, only bootstrap files. -/
+theorem clear_ok_only_bootstrap (sch : Sched) (fs : FS)
+    (hin : InFolders fs) (hok : (clearFolders sch fs managedFolders).out = .ok) (q : String)
+    (hq : get (clearFolders sch fs managedFolders).fs q ≠ none) : q ∈ ignorePaths := by
+  apply Classical.byContradiction; intro hn
+  have hg := clearLoop_ok sch managedFolders 0 fs hok q
+  have hpres : get fs q ≠ none := by
+    rcases clearLoop_get sch managedFolders 0 fs q with h | ⟨h, _⟩
+    · rw [← h]; exact hq
+    · exact absurd h hq
+  have : dirOf q ∈ managedFolders ∧ q ∉ ignorePaths := ⟨hin q hpres, hn⟩
+  rw [if_pos this] at hg
+  exact hq hg
+
+/-- Without faults `ClearFolders` completes. -/
+theorem clear_without_faults_ok (fs : FS) (folders : List String) :
+    (clearFolders noFaults fs folders).out = .ok := clearLoop_noFaults folders 0 fs
+
+/-- **Crash at any operation, then start-up cleanup.** Let the disk hold only files of the managed
+folders; run `ReplaceFiles` under ANY schedule — in particular one that kills the process at operation
+`k` after `n` bytes of a write, for every `k` and `n`; then a restarted control plane runs
+`ClearFolders(ConfigFolders)`: it completes and leaves nothing but bootstrap files, each exactly as the
+crash left it. -/
+theorem crash_then_clear (sch : Sched) (s : St) (F : List File)
+    (hin : InFolders s.fs) (hF : PathsManaged F) :
+    let crashed := (replaceFiles sch s F).st.fs
+    let r := clearFolders noFaults crashed managedFolders
+    r.out = .ok ∧ (∀ q, get r.fs q ≠ none → q ∈ ignorePaths) ∧
+      (∀ q ∈ ignorePaths, get r.fs q = get crashed q) := by
+  have hin' := replaceFiles_inFolders sch s F hin hF
+  exact ⟨clear_without_faults_ok _ _,
+    fun q hq => clear_ok_only_bootstrap noFaults _ hin' (clear_without_faults_ok _ _) q hq,
+    fun q hq => clear_keeps_bootstrap noFaults _ _ q hq⟩
+
+/-- invariant of the control plane across replacements, failures, crashes and restarts -/
+structure SysInv (s : Sys) : Prop where
+  inFolders : InFolders s.st.fs
+  tracked   : s.up = true → Tracked ignorePaths s.st
+
+def StepManaged : Step → Prop
+  | .replace _ F => PathsManaged F
+  | .start _ => True
+
+theorem sys_inv_init (fs : FS) (h : InFolders fs) : SysInv ⟨⟨fs, []⟩, false⟩ :=
+  ⟨h, fun hup => by simp at hup⟩
+
+theorem sys_inv_step (s : Sys) (a : Step) (hi : SysInv s) (ha : StepManaged a) :
+    SysInv (sysStep s a).1 := by
+  cases a with
+  | replace sch F =>
+    unfold sysStep
+    by_cases hup : s.up = true
+    · simp only [hup, if_true]
+      exact ⟨replaceFiles_inFolders sch s.st F hi.inFolders ha,
+        fun _ => replaceFiles_tracked ignorePaths sch s.st F (hi.tracked hup)⟩
+    · simp only [hup]; exact hi
+  | start sch =>
+    unfold sysStep
+    refine ⟨fun q hq => ?_, fun hup q hq => ?_⟩
+    · have hq' : get (clearFolders sch s.st.fs managedFolders).fs q ≠ none := hq
+      apply hi.inFolders q
+      rcases clearLoop_get sch managedFolders 0 s.st.fs q with h | ⟨h, _⟩
+      · rw [← h]; exact hq'
+      · exact absurd h hq'
+    · have hok : (clearFolders sch s.st.fs managedFolders).out = .ok := by simpa using hup
+      exact .inr (clear_ok_only_bootstrap sch s.st.fs hi.inFolders hok q hq)
+
+/-- The invariant holds after every sequence of replacements (each under any fault schedule, possibly
+crashing) and (re)starts (each possibly failing or crashing half-way). -/
+theorem sys_invariant :
+    ∀ (steps : List Step) (s : Sys), SysInv s → (∀ a ∈ steps, StepManaged a) → SysInv (sysRun s steps)
+  | [], _, hi, _ => hi
+  | a :: as, s, hi, hm =>
+    sys_invariant as _ (sys_inv_step s a hi (hm a (by simp))) (fun b hb => hm b (by simp [hb]))
+
+/-- **The property for the whole control plane.** Start from any disk content inside the managed
+folders (e.g. what a previous incarnation left), take any sequence of start-ups, replacements, failures
+and crashes; whenever a replacement then succeeds, the managed folders contain exactly its set, except
+for bootstrap files that start-up deliberately kept. -/
+theorem system_success_exact (fs0 : FS) (h0 : InFolders fs0) (steps : List Step)
+    (hm : ∀ a ∈ steps, StepManaged a) (sch : Sched) (F : List File) :
+    let s := sysRun ⟨⟨fs0, []⟩, false⟩ steps
+    (sysStep s (.replace sch F)).2 = .ok →
+      ∀ q, q ∉ ignorePaths → get (sysStep s (.replace sch F)).1.st.fs q = expectAfter F q none := by
+  intro s hok q hq
+  have hi : SysInv s := sys_invariant steps _ (sys_inv_init fs0 h0) hm
+  unfold sysStep at hok ⊢
+  by_cases hup : s.up = true
+  · simp only [hup, if_true] at hok ⊢
+    exact (replace_ok_exact ignorePaths sch s.st F (hi.tracked hup) hok).2.1 q hq
+  · simp [hup] at hok
+
+/-- A completed start-up leaves only bootstrap files, untouched (whatever happened before). -/
+theorem system_start_ok_only_bootstrap (fs0 : FS) (h0 : InFolders fs0) (steps : List Step)
+    (hm : ∀ a ∈ steps, StepManaged a) (sch : Sched) :
+    let s := sysRun ⟨⟨fs0, []⟩, false⟩ steps
+    (sysStep s (.start sch)).2 = .ok →
+      (∀ q, get (sysStep s (.start sch)).1.st.fs q ≠ none → q ∈ ignorePaths) ∧
+      (∀ q ∈ ignorePaths, get (sysStep s (.start sch)).1.st.fs q = get s.st.fs q) ∧
+      (sysStep s (.start sch)).1.st.last = [] := by
+  intro s hok
+  have hi : SysInv s := sys_invariant steps _ (sys_inv_init fs0 h0) hm
+  exact ⟨fun q hq => clear_ok_only_bootstrap sch s.st.fs hi.inFolders hok q hq,
+    fun q hq => clear_keeps_bootstrap sch s.st.fs managedFolders q hq, rfl⟩
+
+/-! ## 6. Non-vacuity: concrete runs of the same functions -/
+
+private def kp : File := ⟨"/etc/nginx/secrets/ssl_keypair_ns_l.pem", [75, 69, 89], .secret⟩
+private def hc : File := ⟨"/etc/nginx/conf.d/http.conf", [104, 49], .regular⟩
+private def hc2 : File := ⟨"/etc/nginx/conf.d/http.conf", [104, 50], .regular⟩
+/-- operation 5 (the write of the key file) puts one byte on disk and fails -/
+private def partialKey : Sched := fun k => if k = 5 then some (.partialW 1) else none
+/-- the process dies at operation 5 after two bytes -/
+private def crashKey : Sched := fun k => if k = 5 then some (.crash 2) else none
+
+/-- a failed replacement leaves a partial key file, tracked … -/
+example :
+    let r := replaceFiles partialKey ⟨[], []⟩ [hc, kp]
+    r.out = .failed ∧ get r.st.fs kp.path = some ⟨[75], 0o640⟩ ∧ kp.path ∈ r.st.last := by decide
+
+/-- … and the next successful replacement (listener removed) leaves exactly the new set. -/
+example :
+    let r := replaceFiles partialKey ⟨[], []⟩ [hc, kp]
+    let r2 := replaceFiles noFaults r.st [hc2]
+    r2.out = .ok ∧ get r2.st.fs kp.path = none ∧ get r2.st.fs hc.path = some ⟨[104, 50], 0o644⟩ ∧
+      r2.st.last = [hc.path] := by decide
+
+/-- a crash in the middle of the key file, then start-up cleanup with main.conf present -/
+example :
+    let boot : FS := [("/etc/nginx/main-includes/main.conf", ⟨[1], 0o644⟩)]
+    let r := replaceFiles crashKey ⟨boot, []⟩ [hc, kp]
+    let c := clearFolders noFaults r.st.fs managedFolders
+    r.out = .crashed ∧ get r.st.fs kp.path = some ⟨[75, 69], 0o640⟩ ∧
+      c.out = .ok ∧ keys c.fs = ["/etc/nginx/main-includes/main.conf"] := by decide
+
+/-- hypotheses of `system_success_exact` / `crash_then_clear` are satisfiable -/
+example : PathsManaged [hc, kp] := by
+  intro f hf; simp at hf; rcases hf with rfl | rfl <;> decide
+
+/-- a tolerated ENOENT followed by a second fault in the same call -/
+example :
+    let sch : Sched := fun k => if k = 0 then some .enoent else if k = 2 then some .eio else none
+    let r := replaceFiles sch ⟨[(hc.path, ⟨[1], 0o644⟩)], [hc.path]⟩ [hc, kp]
+    r.out = .failed ∧ r.ops = 3 ∧ r.st.last = [hc.path] ∧ get r.st.fs hc.path = some ⟨[], 0o644⟩ := by
+  decide
+
+/-! ## 7. The regression the check must see again: tracking only after a successful write -/
+
+/-- With the earlier code (`before = false`) the invariant is NOT preserved: the partially written key
+file is on disk and untracked … -/
+theorem untracked_failed_write_witness :
+    let r := replaceFilesV false partialKey ⟨[], []⟩ [hc, kp]
+    r.out = .failed ∧ get r.st.fs kp.path = some ⟨[75], 0o640⟩ ∧ kp.path ∉ r.st.last := by decide
+
+/-- … and it survives the next successful replacement: the property fails for that variant. -/
+theorem untracked_failed_write_survives :
+    let r := replaceFilesV false partialKey ⟨[], []⟩ [hc, kp]
+    let r2 := replaceFilesV false noFaults r.st [hc2]
+    r2.out = .ok ∧ get r2.st.fs kp.path = some ⟨[75], 0o640⟩ := by decide
+
+/-- For that variant the statement only holds when no chmod/write fails after a successful create,
+i.e. when every call either succeeds or leaves `Tracked` intact by hypothesis. -/
+theorem next_success_exact_partial (B : List String) (s : St) (ht : Tracked B s)
+    (sch : Sched) (F : List File) (hok : (replaceFilesV false sch s F).out = .ok) :
+    ∀ q, q ∉ B → get (replaceFilesV false sch s F).st.fs q = expectAfter F q none := by
+  intro q hq
+  rw [(replaceFiles_ok_get false sch s F hok).2 q]
+  by_cases hlq : q ∈ s.last
+  · simp [hlq]
+  · have : get s.fs q = none := by
+      apply Classical.byContradiction; intro hne
+      rcases ht q hne with h | h
+      · exact hlq h
+      · exact hq h
+    simp [hlq, this]
+
 end NGF.FileMgr
